@@ -75,7 +75,7 @@ class Gen(object):
                 elif r < 0.55:
                     toks += ['['] + self.text(avoid=']') + [']']
             for _ in range(k):
-                toks += ['{'] + self.arg_tokens(depth, nparams=nparams) + ['}']
+                toks += self.blank(toks) + ['{'] + self.arg_tokens(depth, nparams=nparams) + ['}']
             return toks
         pat, n = self.PATTERNS[kind]
         i = 0
@@ -85,6 +85,7 @@ class Gen(object):
                 # delimited?
                 delim = pat[i + 1] if i + 1 < len(pat) and not pat[i + 1].startswith('#') else None
                 if delim is None:
+                    toks += self.blank(toks)
                     a = self.arg_tokens(depth, nparams=nparams)
                     if len(a) == 1 and not a[0].startswith('\\') and not a[0].startswith('#') and self.rnd.random() < 0.5:
                         toks += a                        # a single token needs no braces
@@ -100,6 +101,13 @@ class Gen(object):
                 toks.append(p)
             i += 1
         return toks
+
+    def blank(self, toks):
+        """sometimes a blank in front of an undelimited argument (never directly after a control word, where the tokenizer eats it)"""
+        last = toks[-1]
+        if self.rnd.random() < 0.3 and last != ' ' and not (len(last) > 1 and last[0] == '\\' and last[-1].isalpha()):
+            return [' ']
+        return []
 
     def body(self, depth, nparams):
         out = []
